@@ -1658,6 +1658,7 @@ func (e *env) c10() {
 	games := e.c.Pick(150, 6000)
 	e.r.Rule = "game histories from valid starts (random play with a shuffling bias towards reversible moves, so positions recur, castling rights get lost and en-passant rights are transient), via MakeMove and via the UCI position command; after every ply Threefold() vs the Lean model vs the art. 9.2.2 count of the rule-book spec over the whole history (capped at 3); non-trivial = ply whose count is >= 2; distinct by (start FEN, move prefix). Added: directed en-passant situations (EPDirected / EPGeometry: discovered check through the origin square, capturer pinned on diagonal / file / rank, two capturers, checking pusher; both colours) followed by reversible round trips of 4 / 6 / 8 plies (ephist-*), and 2-3 boards from StartPos() / FromFEN(same FEN) alive at once and advanced alternately, each compared with its own history (alias-*)"
 	rng := e.c.Rng
+	e.c10Scan()
 	// regression corpus: histories that failed before (run first, every time)
 	corpus := []struct {
 		fen   string
@@ -2418,4 +2419,101 @@ func (e *env) c11() {
 		}
 	}
 	sort.Strings(nil)
+}
+
+// c10Scan exercises the backward scan of Threefold() on FORGED hash histories (verif hook
+// VerifSetHashes): lists of 0..300 64-bit words drawn from small alphabets whose members share their
+// low 32 / high 32 / low 16 bits or differ in one bit, with equal words planted at every distance
+// 1..12 (even and odd) and at long distances from the end.  Threefold() is compared with the Lean model
+// (`threeh`) and with an independent count in Go (matches of the last word at even distance >= 4,
+// capped at 3, as board.go documents the scan).  Real games cannot produce near-collisions at will.
+func (e *env) c10Scan() {
+	rng := e.c.Rng
+	n := e.c.Pick(3000, 60000)
+	b := board.StartPos()
+	var reqs []string
+	var impl []int
+	var lists [][]board.Hash
+	for i := 0; i < n; i++ {
+		base := board.Hash(rng.Uint64())
+		alpha := []board.Hash{base, base ^ 1<<63, base ^ 1<<32, base ^ 1<<31, base ^ 1, base ^ 0xffffffff00000000, base ^ 0x00000000ffffffff,
+			base ^ 0xffff, base &^ 0xffffffff, base & 0xffffffff, board.Hash(rng.Uint64()), board.Hash(rng.Uint64()), 0}
+		k := 1 + rng.IntN(6)
+		if rng.IntN(4) == 0 {
+			k = len(alpha)
+		}
+		l := rng.IntN(14)
+		switch rng.IntN(6) {
+		case 0:
+			l = 120 + rng.IntN(180)
+		case 1:
+			l = 14 + rng.IntN(60)
+		}
+		if rng.IntN(40) == 0 {
+			l = 0
+		}
+		hs := make([]board.Hash, l)
+		for j := range hs {
+			hs[j] = alpha[rng.IntN(k)]
+		}
+		if l > 0 && rng.IntN(2) == 0 { // plant the current word at a chosen distance
+			d := 1 + rng.IntN(12)
+			if rng.IntN(5) == 0 {
+				d = 1 + rng.IntN(l)
+			}
+			if l-1-d >= 0 {
+				hs[l-1-d] = hs[l-1]
+			}
+		}
+		b.VerifSetHashes(hs)
+		got := -1
+		func() {
+			defer func() {
+				if r := recover(); r != nil {
+					got = -2
+				}
+			}()
+			got = int(b.Threefold())
+		}()
+		impl = append(impl, got)
+		lists = append(lists, hs)
+		var sb strings.Builder
+		sb.WriteString("threeh")
+		for _, h := range hs {
+			sb.WriteString(" " + strconv.FormatUint(uint64(h), 16))
+		}
+		reqs = append(reqs, sb.String())
+	}
+	ans := e.m.Batch(reqs)
+	for i, hs := range lists {
+		e.r.Evaluations++
+		want := 1
+		for ix := len(hs) - 5; ix >= 0 && want < 3; ix -= 2 {
+			if hs[ix] == hs[len(hs)-1] {
+				want++
+			}
+		}
+		near := false
+		for _, h := range hs {
+			if len(hs) > 0 && h != hs[len(hs)-1] && (uint32(h) == uint32(hs[len(hs)-1]) || h>>32 == hs[len(hs)-1]>>32) {
+				near = true
+			}
+		}
+		if want >= 2 || near {
+			e.r.Nontrivial("scan " + reqs[i])
+		}
+		e.r.Count(fmt.Sprintf("scan-count-%d", want), 1)
+		if near {
+			e.r.Count("scan-near-collision-in-history", 1)
+		}
+		ops := []string{reqs[i]}
+		if impl[i] != want {
+			// a forged list is not a game history: the scan no longer corresponds to the model the
+			// theorems are about, but no GAME on which the count is wrong is exhibited by this test
+			e.r.Fail(common.Mismatch{Property: "C10", Kind: "broken-correspondence", Ops: ops, Impl: strconv.Itoa(impl[i]), Model: ans[i], Spec: strconv.Itoa(want),
+				Note: "Threefold() on a forged hash history (hook VerifSetHashes) differs from the count of equal words at even distance >= 4 (model Board.threefold, theorem threefold_scan_spec)"})
+		} else if ans[i] != strconv.Itoa(want) {
+			e.r.Fail(common.Mismatch{Property: "C10", Kind: "broken-correspondence", Ops: ops, Impl: strconv.Itoa(impl[i]), Model: ans[i], Spec: strconv.Itoa(want)})
+		}
+	}
 }
